@@ -10,7 +10,7 @@ import sys
 import tempfile
 import zlib
 
-from common import main
+from common import main, budget
 
 VIS = [("none", "v0-40"), ("partial", "v40-60"), ("most", "v60-80"), ("full", "v80-100")]
 CATEGORIES = ["car", "truck", "bus", "bicycle", "motorbike", "pedestrian", "animal", "vehicle.car", "human.pedestrian.adult", "movable_object.barrier", "unknown"]
@@ -193,7 +193,7 @@ def gen(rng):
 
 def search(item, seed):
     rng = random.Random((seed or 0) * 19 + 16)
-    for _ in range(12):
+    for _ in range(budget(12)):
         case = gen(rng)
         try:
             why = check(case)
